@@ -535,6 +535,7 @@ func init() {
 				}
 			}
 			// C05: identity-provider nonce behaviours on a fresh login each
+			acceptedIDToken := ""
 			for _, mode := range []string{"echo", "other", "empty", "absent", "raw", "replay", "replay-token"} {
 				b := newBrowser()
 				sl := e.startOne(b, "N", "/n")
@@ -550,9 +551,12 @@ func init() {
 						e.idp.nonceMode = "other:" + q.Query().Get("nonce")
 					}
 				case "replay-token":
-					// the identity provider (or an attacker in its place) answers with the VERY id_token an earlier, completed login
-					// of this proxy received: validly signed, unexpired, already seen — but bound to the earlier login's nonce
-					e.idp.forceIDToken = e.idp.lastIDToken
+					// the identity provider (or an attacker in its place) answers with the VERY id_token an earlier, COMPLETED login
+					// of this proxy received: validly signed, unexpired, already accepted once — but bound to the earlier login's nonce
+					e.idp.forceIDToken = acceptedIDToken
+					if acceptedIDToken == "" {
+						e.idp.forceIDToken = e.idp.lastIDToken
+					}
 				case "raw":
 					e.idp.nonceMode = "raw"
 					raw := sl.plain
@@ -580,6 +584,11 @@ func init() {
 				est := v.Status == 302 && hasSessionSet(v, e.opts.Cookie.Name)
 				c.casen("c05|"+fmt.Sprintf("%+v|%s", lc, mode), mode+" => "+real)
 				c.count("nonce:" + mode)
+				if mode == "echo" && est {
+					e.idp.mu.Lock()
+					acceptedIDToken = e.idp.lastIDToken
+					e.idp.mu.Unlock()
+				}
 				if mode == "echo" && !est {
 					c.violation("C05", "login with the correct hashed nonce was rejected", map[string]interface{}{"cfg": fmt.Sprintf("%+v", cfg), "response": real})
 				}
